@@ -94,8 +94,8 @@ def run(rep):
                 flag("C08/wrote-into-unnamed-package", "goderive ./%s wrote derived.gen.go into %s" % (p, others),
                      {"cmd": "goderive ./" + p, "files": runs.read_tree(os.path.join(src, p))})
         rep.cov["package_status_alone"] = dict(collections.Counter(status.values()))
-        ok = [p for p in pkgs if status[p] == "ok" and kind_of.get(p) != "flow-top"]
-        rejected = [p for p in pkgs if status[p] == "rejected" and kind_of.get(p) != "flow-top"]
+        ok = [p for p in pkgs if status[p] == "ok" and kind_of.get(p) not in ("flow-top", "autoname-group")]
+        rejected = [p for p in pkgs if status[p] == "rejected" and kind_of.get(p) not in ("flow-top", "autoname-group")]
         hung = [p for p in pkgs if status[p] in ("timeout", "crash")]
         if hung:
             rep.notes.append("packages on which goderive hangs or crashes (C09's business, excluded from byte comparison): %s" % hung)
@@ -324,6 +324,38 @@ def run(rep):
                          {"cmd": "goderive ./htop; <add fields Count, Note to hbase.Item>; goderive ./htop", "baseline_cmd": "<add fields>; goderive ./htop",
                           "files": {q: runs.read_tree(os.path.join(src, q)) for q in ("hbase", "htop")}})
             rep.cov["history_runs"] = 5
+
+        # ---- 7. -autoname: what it does to a package (generated bytes AND rewritten sources) must not depend on the other
+        # packages named in the invocation
+        ag = sorted(p for p in pkgs if kind_of.get(p) == "autoname-group")
+        if len(ag) >= 2:
+            def auto_run(args, tag):
+                root = fresh(src, work, "auto-" + tag)
+                r = runs.goderive(binp, root, ["-autoname"] + args, timeout=TIMEOUT * 2)
+                r["state"] = {p: {fn: runs.sha_file(os.path.join(root, p, fn)) for fn in sorted(os.listdir(os.path.join(root, p)))} for p in ag}
+                r["text"] = {p: runs.read_tree(os.path.join(root, p)) for p in ag}
+                shutil.rmtree(root, ignore_errors=True)
+                return r
+
+            alone_a = {p: auto_run(["./" + p], "alone-" + p) for p in ag}
+            groups = [["./" + p for p in ag], ["./" + p for p in reversed(ag)], ["ambig/" + p for p in ag]] + [["./" + a, "./" + b] for a in ag for b in ag if a != b]
+            evaluations += len(ag) + len(groups)
+            for gi, g in enumerate(groups):
+                r = auto_run(g, "g%d" % gi)
+                for p in ag:
+                    if not any(a.endswith("/" + p) for a in g):
+                        continue
+                    comparisons += 1
+                    distinct.add((p, "autoname:" + " ".join(g)))
+                    if r["state"][p] != alone_a[p]["state"][p]:
+                        diff = [fn for fn in set(r["state"][p]) | set(alone_a[p]["state"][p]) if r["state"][p].get(fn) != alone_a[p]["state"][p].get(fn)]
+                        flag("C08/autoname-depends-on-other-packages",
+                             "`goderive -autoname %s` leaves %s of package %s different from `goderive -autoname ./%s`: %s" % (
+                                 " ".join(g), ", ".join(sorted(diff)), p, p,
+                                 "; ".join("%s: %r" % (fn, [l for l in r["text"][p].get(fn, "").splitlines() if "derive" in l][:3]) for fn in sorted(diff) if fn != DERIVED)[:300]),
+                             {"cmd": "goderive -autoname " + " ".join(g), "baseline_cmd": "goderive -autoname ./" + p, "package": p,
+                              "files": {q: runs.read_tree(os.path.join(src, q)) for q in ag}})
+            rep.cov["autoname_group_runs"] = len(ag) + len(groups)
 
         rep.cov["evaluations"] = evaluations
         rep.cov["programs"] = len(pkgs)
